@@ -813,7 +813,10 @@ def compare(case, obs, m):
     if paused and m['cut'] is not None:
         # a paused writer delays the close as well: what completes between the cutting item and
         # the resumption may or may not be written - compare the items before the cut only
-        keep = {j for j, t in m['times'].items() if t < m['cut'] and t < case['cfg']['pause'][0]}
+        # (a batch member is written with the batch response, when its last request member completes)
+        tb = max([t for j, t in m['times'].items() if items[j][0] == 'B'], default=0)
+        when = {j: (max(t, tb) if items[j][0] == 'B' else t) for j, t in m['times'].items()}
+        keep = {j for j, t in when.items() if t < m['cut'] and t < case['cfg']['pause'][0]}
         got = {j: r for j, r in got.items() if j in keep}
         want = {j: r for j, r in want.items() if j in keep}
     if got != want:
@@ -932,5 +935,12 @@ def run(ctx):
 
 def replay(ctx, case):
     res = Results()
+    if 'items' not in case and not isinstance(case.get('case'), dict):
+        # a replay file written for a model / implementation disagreement only
+        recs = (case.get('violations') or []) + (case.get('disagreements') or [])
+        recs = [r for r in recs if isinstance(r.get('case'), dict)]
+        if not recs:
+            return res.finish('nothing to replay: the file names no case')
+        case = recs[0]['case']
     evaluate(ctx, [norm_case(case)], res)
     return res.finish('replay of one recorded case')
